@@ -1,6 +1,7 @@
 SPECIFICATION Spec
 CONSTANTS
   MaxLen = 2
+  Emit = FALSE
   Family = "close"
 INVARIANTS AllInv
 CHECK_DEADLOCK FALSE
